@@ -445,6 +445,22 @@ func downgrade0510(cur *trie.Slim) *trie.Slim {
 	}
 	if old.LeafPrefixes != nil {
 		fixOldSelect(old.LeafPrefixes.PositionBM)
+		// The historical writer sized the leaf-prefix presence bitmap by the
+		// number of stored leaf VALUES: for a key-only trie (no values) the
+		// bitmap only reaches the last leaf that has a prefix. Streams of that
+		// shape exist; model them independently of what today's builder does.
+		if old.Leaves == nil && old.LeafPrefixes.PresenceBM != nil {
+			pb := old.LeafPrefixes.PresenceBM
+			var idx []int32
+			for wi, w := range pb.Words {
+				for w != 0 {
+					idx = append(idx, int32(wi*64+bits.TrailingZeros64(w)))
+					w &= w - 1
+				}
+			}
+			pb.Words = bitmap.Of(idx)
+			pb.RankIndex = bitmap.IndexRank64(pb.Words)
+		}
 	}
 	if old.Leaves != nil {
 		old.Leaves = &trie.VLenArray{Bytes: old.Leaves.Bytes}
